@@ -239,7 +239,7 @@ def compare(rec, reply):
         dis.append({'op': -1, 'what': 'model produced %d states for %d operations' % (len(parts), len(rec.ops))})
     for k, part in enumerate(parts[:len(rec.ops)]):
         out, st, iv = [x.strip() for x in part.split(' # ', 1)[0:1] + part.split(' # ', 1)[1].rsplit(' # ', 1)]
-        if out != rec.outs[k] or st != rec.states[k]:
+        if out != rec.outs[k] or st.strip() != rec.states[k].strip():
             dis.append({'op': k, 'opword': rec.ops[k][:200], 'model_out': out, 'impl_out': rec.outs[k],
                         'model': summarize(st), 'impl': summarize(rec.states[k])})
         if iv != INV_OK:
